@@ -11,13 +11,13 @@ type Program func() (threads []ThreadSpec, judge func(*Exec) []string)
 
 // ExploreOpts bounds an exploration.
 type ExploreOpts struct {
-	Bound     int           // maximal number of preemptions (<0 = unbounded)
-	MaxExecs  int           // stop after this many executions (0 = no cap)
-	Deadline  time.Time     // stop at this time (zero = none)
-	Race      bool
-	Elide     bool
-	FuelTotal int64
-	OnExec    func(*Exec) // optional observer
+	Bound       int       // maximal number of preemptions (<0 = unbounded)
+	MaxExecs    int       // stop after this many executions (0 = no cap)
+	Deadline    time.Time // stop at this time (zero = none)
+	Race        bool
+	Elide       bool
+	FuelTotal   int64
+	OnExec      func(*Exec) // optional observer
 	StopAtFirst bool
 	// Sleep selects mode A: unbounded exploration with sleep-set partial-order
 	// reduction (one complete execution per Mazurkiewicz trace; requires Bound < 0).
@@ -42,8 +42,8 @@ type Found struct {
 // ExploreStats is what an exploration covered.
 type ExploreStats struct {
 	Executions   int
-	Points       int  // scheduling decisions with >1 enabled thread, summed
-	MaxPoints    int  // longest choice vector
+	Points       int // scheduling decisions with >1 enabled thread, summed
+	MaxPoints    int // longest choice vector
 	MaxThreads   int
 	Deadlocks    int
 	Complete     bool // the space (within Bound) was exhausted
@@ -51,7 +51,7 @@ type ExploreStats struct {
 	ElisionOff   bool // elision had to be switched off
 	Violations   []Found
 	MaxPreempt   int
-	SleepBlocked int // executions cut by the sleep sets (redundant prefixes)
+	SleepBlocked int  // executions cut by the sleep sets (redundant prefixes)
 	Diverged     bool // executions were not reproducible (global state survives between executions): the search was abandoned
 	SelectSeen   bool // mode A was abandoned because the program executes a select statement
 	GlobalsReset bool // the exploration was redone with the package-level state reset before every execution
